@@ -32,13 +32,13 @@ theorem forward_delivers (L : A.Laws) (o : Node A) (ce : CircuitE A) (cid first 
       (walk nodes c0).2 = .delivered xa ⟨xc, false, (m.head? == some 4) || decide (ce.early < o.maxEarly), m⟩ ∧
       c0.msg :: (walk nodes c0).1.map (fun e => e.cell.msg) = sufBodies A .fwd (withNonces A o.ctr ce.hops) m ∧
       ∀ e ∈ (walk nodes c0).1, e.cell.plaintext = false := by
-  refine ⟨_, orig_send o first cid re0 m ce hc hs, rfl, ?_⟩
-  obtain ⟨h1, h2, h3⟩ := walk_fwd L _ cid xa xc nodes ce.hops hpath (withNonces A o.ctr ce.hops) (by simp) m b hm hb
-  refine ⟨h1, ?_, fun e he => (h3 e he).1⟩
-  rw [h2]
   have hne : ce.hops ≠ [] := by
     generalize ce.hops = hops at hpath
     cases hpath <;> simp
+  refine ⟨_, orig_send o first cid re0 m ce hc hs hne, rfl, ?_⟩
+  obtain ⟨h1, h2, h3⟩ := walk_fwd L _ cid xa xc nodes ce.hops hpath (withNonces A o.ctr ce.hops) (by simp) m b hm hb
+  refine ⟨h1, ?_, fun e he => (h3 e he).1⟩
+  rw [h2]
   obtain ⟨k, ks, hks⟩ := List.exists_cons_of_ne_nil hne
   simp [hks, withNonces, sufBodies]
 
@@ -79,7 +79,10 @@ example : (walk [Ex.r, Ex.o] ⟨11, false, false, encLayers toy .bwd [((2 : UInt
 /-- **One more layer on every earlier link.**  For the bodies `sufBodies d kn m` seen on the links of one passage
     (link i carries the layers of hops i+1 … n): the body on link i is exactly `(n - i) · ovh` bytes longer than the
     payload, so it has one more layer than the body on link i+1; and the bodies on all links *and the plaintext* are
-    pairwise different — neither the plaintext nor the same ciphertext is visible on two links. -/
+    pairwise different AS WHOLE BYTE STRINGS.  This is a statement about layer counts and lengths only: `Aead.Laws` has no
+    confidentiality law (the toy instance carries the message verbatim inside the body and satisfies every law), so
+    "the payload cannot be read from a link body" is NOT proved here; see `payload_needs_all_later_hop_keys` for the
+    symbolic version and the oracle `link:plaintext-visible` for the byte-level check on the real AEAD. -/
 theorem layers_strictly_decrease (L : A.Laws) (d : Dir) (kn : List (A.Key × Nat)) (m : Bytes) :
     (sufBodies A d kn m).length = kn.length ∧
     (∀ i b, (sufBodies A d kn m)[i]? = some b → b.length = m.length + L.ovh * (kn.length - i)) ∧
@@ -105,6 +108,21 @@ theorem tampered_dropped_backward (L : A.Laws) (cid oa oc : Nat) (nodes : List (
     (hbad : ∀ (kn : List (A.Key × Nat)) (m : Bytes), kn.map Prod.fst = ks → c.msg ≠ encLayers A .bwd kn m)
     (a : Nat) (c' : Cell) (hd : (walk nodes c).2 = .delivered a c') : c'.plaintext = true :=
   walk_bwd_tampered L cid oa oc nodes ks hpath c hcid hbad a c' hd
+
+/-- the two theorems above for a cell whose plaintext flag is NOT set (an altered body, an altered circuit id that still
+    routes, a foreign cell): it is delivered nowhere.  (When the flag byte itself is set by the attacker the cell is a
+    plaintext cell: relays drop it, and an endpoint hands it on only as a create/created message —
+    `only_create_created_plain` — i.e. through the unauthenticated circuit-construction path, never as circuit data.) -/
+theorem tampered_dropped_strict (L : A.Laws) (re : Bool) (cid a x1 x2 : Nat) (nodes : List (Node A)) (keys : List A.Key)
+    (c c' : Cell) (hcid : c.cid = cid) (hpt : c.plaintext = false) :
+    (FwdChain re cid nodes keys x1 x2 →
+      (∀ (kn : List (A.Key × Nat)) (m : Bytes), kn.map Prod.fst = keys → c.msg ≠ encLayers A .fwd kn m) →
+      (walk nodes c).2 ≠ .delivered a c') ∧
+    (BwdChain cid nodes keys x1 x2 →
+      (∀ (kn : List (A.Key × Nat)) (m : Bytes), kn.map Prod.fst = keys → c.msg ≠ encLayers A .bwd kn m) →
+      (walk nodes c).2 ≠ .delivered a c') :=
+  ⟨fun h hbad => walk_fwd_tampered_strict L re cid x1 x2 nodes keys h c hcid hpt hbad a c',
+   fun h hbad => walk_bwd_tampered_strict L cid x1 x2 nodes keys h c hcid hpt hbad a c'⟩
 
 /-- **Splices.**  A body whose outermost layer was made under another key (a cell of another circuit) or for the other
     direction (a reflected cell) is not genuine for the hop list `k :: ks`, so the two theorems above apply to it. -/
@@ -198,10 +216,10 @@ theorem rendezvous_never_plain (L : A.Laws) (nd : Node A) (cid cid' nxt nxt' e e
 
 /-- the owner of an e2e circuit wraps the message in the end-to-end layer and then in every hop layer -/
 theorem e2e_sender_wraps (nd : Node A) (c : Cell) (ce : CircuitE A) (hk : A.Key) (hp : c.plaintext = false)
-    (hc : List.lookup c.cid nd.circuits = some ce) (hs : ce.hs = some hk) :
+    (hc : List.lookup c.cid nd.circuits = some ce) (hs : ce.hs = some hk) (hne : ce.hops ≠ []) :
     outgoingCrypto nd c = some { c with msg := encLayers A .fwd (withNonces A nd.ctr ce.hops)
                                                   (A.enc hk (hsDirOut ce.ctype) (nd.ctr + ce.hops.length) c.msg) } :=
-  e2e_outgoing nd c ce hk hp hc hs
+  e2e_outgoing nd c ce hk hp hc hs hne
 
 /-- what the owner of an e2e circuit delivers is the content of a genuine e2e ciphertext inside genuine hop layers -/
 theorem e2e_delivers_only_genuine (L : A.Laws) (nd : Node A) (c c' : Cell) (ce : CircuitE A) (hk : A.Key)
@@ -271,11 +289,16 @@ example : fromFirstHop (167772161, 5000) (167772161, 6000) = false := by decide 
 
 /-! ### the exit's outside socket -/
 
-/-- **Nothing handed to the exit socket is lost or duplicated.**  For every schedule of `sendto` calls (literal
-    addresses and host names, any number of them for the same host), host-name resolutions completing and the transports
-    becoming ready, as long as no more than 10 datagrams have to wait at any time (the queue's bound): every datagram is,
-    exactly as often as it was handed over, either emitted, queued or awaiting its resolution. -/
-theorem exit_socket_conserves (dns : Nat → Nat) (evs : List XEv) (s : XSock)
+/-- Full statement wanted: for EVERY schedule in which at most 10 datagrams wait in the queue at any one time, nothing
+    handed to `sendto` is lost or duplicated.  Proved part (`_partial`): schedules in which the datagrams already waiting
+    plus ALL datagrams handed over in the schedule number at most 10 (a stronger bound than "at most 10 waiting at a
+    time": a ready socket forwarding an 11th datagram is outside this theorem).  Also outside the model `XSock`: a failed
+    or cancelled resolution (the code loses that datagram), resolutions completing out of order, the policy check, the
+    null-address filter, the separate readiness of the v4 and v6 transports, anything after `close()`.
+    Within that: for every interleaving of `sendto` calls (literal addresses and host names, any number of them for the same
+    host), resolutions completing and the transports becoming ready, every datagram is, exactly as often as it was handed
+    over, either emitted, queued or awaiting its resolution. -/
+theorem exit_socket_conserves_partial (dns : Nat → Nat) (evs : List XEv) (s : XSock)
     (h : s.queue.length + s.pending.length + (evs.flatMap XEv.sentId).length ≤ 10) (x : Nat) :
     (s.run dns evs).held.count x = s.held.count x + (evs.flatMap XEv.sentId).count x :=
   XSock.run_held dns evs s h x
@@ -285,28 +308,59 @@ example : ((XSock.run (fun h => h + 100) {}
       [.send 1 (.name 7), .send 2 (.name 7), .send 3 (.name 7), .resolved, .transportsReady, .resolved, .resolved]).out
     = [(1, 107), (2, 107), (3, 107)]) := by decide
 
-/-- **A retiring exit socket stays in the routing table as long as it is open**: `covered` (every open socket has its
-    exit entry) is preserved by opening a socket, by the start of a removal (nothing changes during
-    `remove_tunnel_delay`) and by its end (entry and socket go together) … -/
-theorem retiring_keeps_covered (x : ExitNode A) (cid : Nat) (h : x.covered = true) :
-    (x.openSocket cid).covered = true ∧ (x.removeStart cid).covered = true ∧ (x.removeFinish cid).covered = true :=
-  ⟨ExitNode.openSocket_covered x cid h, ExitNode.removeStart_covered x cid h, ExitNode.removeFinish_covered x cid h⟩
+/-- **Nothing leaves `send_cell` in clear.**  For every node, whatever its tables contain (circuit being built, ready,
+    closing, exit socket retired or not, entries half removed): a cell that is not flagged plaintext is either not sent
+    at all, or its body is an AEAD ciphertext at least one overhead longer than the message — in particular not the
+    message.  (Mirrors the guard added to `outgoing_crypto` by fix 6f09f78; before it a circuit id without any table
+    entry made the cell leave unencrypted, which happened to return traffic while `remove_exit_socket` was closing the
+    socket.)  No assumption about the order in which tables and sockets are torn down is needed. -/
+theorem sent_cell_never_clear (L : A.Laws) (nd : Node A) (target t : Nat) (c c' : Cell) (hp : c.plaintext = false)
+    (h : (sendCell nd target c).2 = some (t, c')) :
+    c'.plaintext = false ∧ c'.cid = c.cid ∧ (∃ (k : A.Key) (d : Dir) (n : Nat) (inner : Bytes), c'.msg = A.enc k d n inner) ∧
+      c.msg.length + L.ovh ≤ c'.msg.length ∧ c'.msg ≠ c.msg := by
+  obtain ⟨e1, e2, e3⟩ := earlyStep_cell nd c
+  unfold sendCell at h
+  split at h
+  · cases h
+  · rename_i c2 ho
+    simp only [Option.some.injEq, Prod.mk.injEq] at h
+    obtain ⟨_, rfl⟩ := h
+    obtain ⟨a1, a2, a3, a4⟩ := outgoing_wraps L _ _ c2 (by rw [e1, hp]) ho
+    rw [e2] at a4
+    refine ⟨a1, by rw [a2, e3], a3, a4, ?_⟩
+    intro he
+    rw [he] at a4
+    have := L.ovh_pos
+    omega
 
-/-- … and the return traffic of a covered open socket always leaves under a backward layer of the exit key, never in
-    clear; -/
-theorem return_traffic_never_clear (L : A.Laws) (x : ExitNode A) (cid target : Nat) (m : Bytes)
-    (hcov : x.covered = true) (hopen : cid ∈ x.openSocks) (hc : List.lookup cid x.nd.circuits = none) :
-    ∃ k c0, (sendCell x.nd target ⟨cid, false, false, m⟩).2 = some (target, c0) ∧
-      c0.msg = A.enc k .bwd x.nd.ctr m ∧ c0.msg ≠ m :=
-  covered_return_encrypted L x cid target m hcov hopen hc
+/-- a cell for a circuit id that no table knows, or for an own circuit without hops, is not sent at all -/
+theorem no_key_nothing_sent (nd : Node A) (target : Nat) (c : Cell) (h : noKeyToSend nd c = true) :
+    (sendCell nd target c).2 = none := by
+  have h' := earlyStep_noKey nd c
+  rw [h] at h'
+  simp [sendCell, outgoingCrypto, h']
 
-/-- whereas a cell for a circuit id without any table entry is sent exactly as it is (`outgoing_crypto` falls through):
-    this is what an open socket that outlived its entry would do to return traffic. -/
-theorem uncovered_is_clear (nd : Node A) (target cid : Nat) (m : Bytes)
-    (hc : List.lookup cid nd.circuits = none) (hx : List.lookup cid nd.exits = none) (hr : List.lookup cid nd.relays = none) :
-    (sendCell nd target ⟨cid, false, false, m⟩).2 = some (target, ⟨cid, false, false, m⟩) :=
-  unknown_circuit_sent_in_clear nd target cid m hc hx hr
+example : (sendCell Ex.x 1 ⟨999, false, false, Ex.msg⟩).2 = none := by decide
 
-example : (ExitNode.mk Ex.x [11]).covered = true ∧ ((ExitNode.mk Ex.x [11]).removeFinish 11).openSocks = [] := by decide
+/-- **Symbolic secrecy of the payload on a link.**  In the Dolev–Yao reading (`Opens`: the only way into a ciphertext is
+    its key) an observer who lacks the key of at least one of the hops that still follow can open the body on that link
+    only down to layered ciphertexts of the payload, never to the payload itself.  This is a theorem about the attacker
+    MODEL; that the real AEAD admits no other way in is the (unproved, computational) confidentiality assumption. -/
+theorem payload_needs_all_later_hop_keys (L : A.Laws) (K : A.Key → Prop) (d : Dir) (kn : List (A.Key × Nat)) (m y : Bytes)
+    (hmiss : ∃ p ∈ kn, ¬ K p.1) (h : Opens A K (encLayers A d kn m) y) :
+    ∃ suf, suf ≠ [] ∧ y = encLayers A d suf m ∧ m.length < y.length := by
+  obtain ⟨p, hp, hnk⟩ := hmiss
+  rcases opens_layers L K d kn m y h with ⟨pre, suf, hsplit, hy, hpre⟩ | ⟨hall, _⟩
+  · refine ⟨suf, ?_, hy, ?_⟩
+    · intro h0; subst h0
+      exact hnk (hpre p (by simpa [hsplit] using hp))
+    · have hne : suf ≠ [] := by
+        intro h0; subst h0
+        exact hnk (hpre p (by simpa [hsplit] using hp))
+      obtain ⟨q, suf', rfl⟩ := List.exists_cons_of_ne_nil hne
+      rw [hy, encLayers_length L]
+      have := L.ovh_pos
+      simp only [List.length_cons, Nat.mul_add, Nat.mul_one]; omega
+  · exact absurd (hall p hp) hnk
 
 end Ipv8.C04
